@@ -44,7 +44,7 @@ def gen_program(rng):
     vals.append("\"%s\"" % "\n".join(hostile_line() for _ in range(rng.randint(2, 5))))
     vals.append("'(1 \"%s\" 2)" % "\n".join(hostile_line() for _ in range(rng.randint(2, 3))))
     # text outside ASCII (2-, 3- and 4-byte characters) in strings and symbols-as-strings
-    vals += ["\"caf\u00e9 ouvert \u03bb\"", "\"\u65e5\u672c\u8a9e (\U0001F600) \u00fc\"", "(list \"\u00e9\" \"\u20ac\" 1)"]
+    vals += ["\"col1\rcol2 (a bare carriage return)\"", "(list \"x\ry\" 1)", "\"caf\u00e9 ouvert \u03bb\"", "\"\u65e5\u672c\u8a9e (\U0001F600) \u00fc\"", "(list \"\u00e9\" \"\u20ac\" 1)"]
     if rng.random() < 0.08:
         # a file larger than any block size a reader is likely to use, filled with characters of 2-4 bytes (in a string that is defined, and displayed in part)
         pad = "".join(rng.choice(["\u00e9", "\u00e9", "\u20ac", "\U0001F600", "a", "\u03bb"]) for _ in range(rng.choice([40000, 90000])))
@@ -226,8 +226,11 @@ def run(tier, seed):
         ctx.nontriv(key)
     ctx.legs.append("programs")
     # ---------------- missing / directory / non-UTF-8
-    special = {"missing.scm": None, "adir.scm": "dir", "nonutf8.scm": b"(import (scheme base) (scheme write))\n(display \"\xff\xfe\")\n", "empty.scm": b""}
+    # files that do not exist although a program with the same stem and .scm lies beside them: still a diagnostic and a non-zero status, nothing run
+    open(os.path.join(root, "special-sib.scm") if False else os.path.join(root, "sibling.scm"), "w").write("(import (scheme base) (scheme write))\n(display 'ran-the-sibling)\n")
+    special = {"missing.scm": None, "sibling.txt": None, "sibling.sld": None, "sibling": None, "sibling.v2": None, "sibling.scm.bak": None, "adir.scm": "dir", "nonutf8.scm": b"(import (scheme base) (scheme write))\n(display \"\xff\xfe\")\n", "empty.scm": b""}
     sd = os.path.join(root, "special"); os.makedirs(sd)
+    shutil.copy(os.path.join(root, "sibling.scm"), os.path.join(sd, "sibling.scm"))
     for name, data in special.items():
         pth = os.path.join(sd, name)
         if data == "dir":
